@@ -483,9 +483,11 @@ def explore_c18(rng, tier, res, deep=False):
     res.rule = (
         "descendant queries ($..*, $..a, $..[0], $..[?@], nested @..* in filters) on documents of container "
         "nesting limit-2 .. limit+2 for limits 1..6 and 100; object/array mixes, the deep branch first / middle / "
-        "last, scalar or empty container at the bottom; deterministic mode; real outcome (full result or "
-        "JSONPathRecursionError) vs model and vs the exact boundary depth <= limit. Non-trivial = distinct "
-        "(limit, depth, shape, query)."
+        "last, scalar or empty container at the bottom; deterministic mode: real outcome (full result or "
+        "JSONPathRecursionError) vs model and vs the exact boundary depth <= limit; nondeterministic mode: the same "
+        "boundary for every script of the (capped) choice tree, model vs real per script; cyclic structures "
+        "(self-loops, longer cycles through objects and arrays, fan-out 2) in both modes with a time bound; "
+        "2000-deep data under a raised limit. Non-trivial = distinct (limit, depth, shape, query)."
     )
     limits = [1, 2, 3, 4, 5, 6, 100] if tier == "thorough" else [1, 2, 3, 5, 100]
     reps = 6 if tier == "thorough" else (3 if deep else 1)
@@ -531,3 +533,6 @@ def explore_c18(rng, tier, res, deep=False):
                      "expected": want, "what": f"limit {lim}, container nesting {dd}"}
                 )
         res.count(f"limit-{lim}", len(cases))
+    import checks_nd
+
+    checks_nd.explore_c18_nd(rng, tier, res, deep)
